@@ -117,7 +117,7 @@ package leader
 
 //@ lockinv kvElection.mu C18.claim_iff_state:        isLeader == (state == "LEADER")
 //@ lockinv kvElection.mu C02.claim_implies_running:  isLeader ==> (ctx != nil && !stopped)
-//@ lockinv kvElection.mu C18.stopped_implies_state:  stopped ==> state == "STOPPED"
+//@ lockinv kvElection.mu C18+C02+C09.stopped_implies_state:  stopped ==> state == "STOPPED"
 //@ lockinv kvElection.mu C09+C19.cancel_set_with_ctx:    ctx != nil ==> cancel != nil
 //@ lockinv kvElection.mu C19.term_cancel_set:            isLeader ==> termCancel != nil
 
@@ -438,6 +438,7 @@ package leader
 //@   on recv ctx.Done set sawCancel = true
 //@   on return assert C06.round_attempts_unless_cancelled: !sawCancel ==> attempts >= 1
 //@   on return assert C06.exhausted_round_returns_to_follower: attempts == 4 && lastErrNonNil ==> bfCalled
+//@   on return assert C06.failed_round_settles: attempts >= 1 && lastErrNonNil && !sawCancel ==> bfCalled
 //@   loop 0 invariant C17.round_shape: 0 <= $v && $v <= 3 && attempts == $v && jitterWaited && jitterArmed && (attempts == 0 || waitedSince) && !bfCalled && (attempts > 0 ==> lastErrNonNil)
 
 //@ func (e *kvElection) attemptAcquire()
@@ -454,6 +455,9 @@ package leader
 //@   on load kvElection.isLeader as l set sawLeader = l.value
 //@   on load kvElection.isLeader set leaderChecked = true
 //@   on call KeyValue.Create assert C08+C07.leader_does_not_reacquire: leaderChecked && !sawLeader
+//@   ghost tkNil Bool = false
+//@   on ret attemptPriorityTakeover as r set tkNil = r.result == nil
+//@   ensures C06+C10.nil_result_means_claim: result == nil ==> sawLeader || calls(becomeLeader) == 1 || tkNil
 
 //@ func (e *kvElection) attemptPriorityTakeover(payloadBytes)
 //@   tags C01 C10 C13 C05
@@ -462,6 +466,7 @@ package leader
 //@   ghost tkEntry Int = 0
 //@   on ret KeyValue.Get as g when g.result1 == nil set tkEntry = g.result0
 //@   on call KeyValue.Update as c assert C10.update_carries_own_payload: c.value == payloadBytes
+//@   ensures C10+C06.nil_result_means_takeover: result == nil ==> calls(becomeLeader) == 1
 //@   ensures C10.refuses_only_equal_or_higher: tkEntry != 0 && ParseOK(EntryVal(tkEntry)) && e.cfg.Priority > PrioOf(EntryVal(tkEntry)) ==> calls(KeyValue.Update) == 1
 
 //@ func (e *kvElection) becomeLeader(token, rev)
@@ -526,12 +531,12 @@ package leader
 //@   on unlock kvElection.mu assert C03.claim_cleared_at_unlock: !unlessLeader ==> !e.isLeader
 //@   on store kvElection.isLeader assert C07.settling_never_clears_a_claim: unlessLeader ==> !cleared
 //@   ensures C07.settling_reports_nothing_cleared: unlessLeader ==> !result
-//@   ensures C08.reports_cleared: !unlessLeader ==> result == cleared
+//@   ensures C08+C03.reports_cleared: !unlessLeader ==> result == cleared
 //@   ensures C19.cancelled_on_demotion: cleared && !unlessLeader ==> termCancelled
 //@   ghost stateL Int = 0
 //@   on lock kvElection.mu set stateL = e.state
 //@   ensures C06.failed_round_rearms: stateL != "STOPPED" && !(unlessLeader && cleared) && ctxSeen && !watcherSeen ==> scalls(watchLoop) == 1
-//@   ensures C09.stopped_stays_stopped: stateL == "STOPPED" ==> scalls(watchLoop) == 0 && calls(recordTransition) == 0
+//@   ensures C09+C02.stopped_stays_stopped: stateL == "STOPPED" ==> scalls(watchLoop) == 0 && calls(recordTransition) == 0
 
 //@ func (e *kvElection) Stop()
 //@   tags C09 C08 C18 C01 C20
@@ -579,8 +584,13 @@ package leader
 //@   on call KeyValue.Delete set mayDelete = opts.DeleteKey && wasLeaderL
 //@   on call wg.Wait assert C09.stop_waits_time_boxed: inspawn()
 //@   on select as s assert C09.stop_waits_time_boxed: s.blocking ==> s.hasAfter
+//@   on select as s assert C09.stop_waits_honour_the_callers_context: s.blocking ==> s.hasDone && s.doneCtx == ctx
 //@   ensures C08.demote_iff_claim_cleared: result == nil && !ctxNilL ==> (wasLeaderL ? (calls(onDemote) + scalls(onDemote) == 1 || (calls(onDemote) + scalls(onDemote) == 0 && demoteNilSeen)) : calls(onDemote) + scalls(onDemote) == 0)
 //@   ensures C09.delete_issued: result == nil && !ctxNilL && opts.DeleteKey && wasLeaderL ==> calls(KeyValue.Delete) == 1
+//@   ensures C01+C07.delete_issued_at_most_once: calls(KeyValue.Delete) + scalls(KeyValue.Delete) <= 1
+//@   ghost released Bool = false
+//@   on ret KeyValue.Delete set released = true
+//@   on call onDemote assert C01+C02+C07.key_released_before_user_callback: !(opts.DeleteKey && wasLeaderL) || released
 //@   ensures C01+C02+C07.delete_only_with_option: !(opts.DeleteKey && wasLeaderL) ==> calls(KeyValue.Delete) == 0
 //@   ensures C09.second_stop: ctxNilL ==> result == ErrAlreadyStopped && calls(cancel) == 0 && calls(onDemote) == 0 && calls(KeyValue.Delete) == 0
 
@@ -637,6 +647,7 @@ package leader
 //@   tags C04 C13 C01
 //@   flag spawn_exempt:@KeyValue.Get
 //@   requires C09.nil_ctx: ctx != nil
+//@   on send as s when inspawn() assert C09+C04.helper_goroutine_never_strands: s.cap >= 1 && s.earlier == 0
 //@   ghost tok Int = 0
 //@   ghost ntok Int = 0
 //@   ghost ent Int = 0
@@ -695,6 +706,7 @@ package leader
 //@ func (e *kvElection) heartbeatLoop(ctx)
 //@   tags C03 C12 C05 C01 C07
 //@   flag spawn_exempt:@KeyValue.Update
+//@   on send as s when inspawn() assert C09+C03.helper_goroutine_never_strands: s.cap >= 1 && s.earlier == 0
 //@   requires C09.nil_ctx: ctx != nil
 //@   requires C01.term_started: e.revSet
 //@   ghost streak Int = 0
